@@ -586,7 +586,8 @@ def main_c16(tier, seed):
     orig_acc = g.opf_accuracy
     for idx in range(N):
         which = "knn" if idx % 2 == 0 else "unsup"
-        it = gen_split_inst(rng, nmax=12 if tier == "quick" else 16) if which == "knn" else gen_kinst(rng, nmin=6, nmax=12 if tier == "quick" else 16, labelled=True)
+        it = gen_split_inst(rng, nmax=12 if tier == "quick" else 16) if which == "knn" else \
+            gen_kinst(rng, nmin=6, nmax=12 if tier == "quick" else 16, labelled=True, **(dict(kinds=("micro",)) if idx % 10 == 5 else {}))
         n = it.n
         d = it.desc(); d["model"] = which
         if which == "knn":
@@ -646,6 +647,8 @@ def main_c16(tier, seed):
         else:
             min_k = rng.randint(1, 2)
             max_k = rng.randint(min_k, min(5, n - 1))
+            if it.kind == "micro":
+                min_k, max_k = 1, min(5, n - 1)       # the whole range: cuts that are positive but below 1e-20 occur on the way
             opf, X, I = make_knn_model(it, UnsupervisedOPF, reuse=(idx % 4 == 3), min_k=min_k, max_k=max_k)
             cuts = []
             orig_cut = opf._normalized_cut
